@@ -120,7 +120,7 @@ FULL = UNARY + BINARY
 KIND_PROP = {
     'iter': 'C01', 'iter-again': 'C01', 'copy': 'C01', 'copy-freeze': 'C01', 'parent-changed': 'C01',
     'build-refused': 'C01',
-    'len': 'C02', 'indexable-lost': 'C02', 'index': 'C02', 'index-negative': 'C02',
+    'len': 'C02', 'indexable-lost': 'C02', 'iter-after-index': 'C02', 'index': 'C02', 'index-negative': 'C02',
     'index-out-of-range-returns': 'C02', 'index-out-of-range-wrong-error': 'C02', 'index-error-lost': 'C02',
     'keys': 'C03', 'keys-empty': 'C03', 'items': 'C03', 'items-again': 'C03', 'items-wrong-pairs': 'C03',
     'items-again-wrong-pairs': 'C03', 'lookup': 'C03', 'absent-key-returns-value': 'C03',
